@@ -95,9 +95,19 @@ class XmlTableGen:
         elif pub['dtd'] and r < 0.8:
             head += b'<!DOCTYPE ' + root + b' SYSTEM "' + bytes.fromhex(pub['dtd']) + b'">'
 
+        # unknown (literal) names, some of which are proper prefixes of other strings of the document
+        fam = rng.choice([b'x-foobar', b'Statusline', b'vendorext', b'zz-long-name'])
+        lit_pool = [fam, fam[:len(fam) - 3], fam[:4], b'unk', b'X-Custom']
+        all_names = {bytes.fromhex(t[0]) for t in tags}
+
         def elt(depth, page):
             t = rng.choice(tags)
             name = bytes.fromhex(t[0])
+            if rng.random() < 0.12:
+                name = rng.choice(lit_pool)
+                if name in all_names:
+                    name = b'q' + name
+                t = [name.hex(), page, 0, 0]
             out = b'<' + name
             if t[1] != page and t[1] in nsmap:
                 out += b' xmlns="' + nsmap[t[1]] + b'"'
@@ -111,6 +121,8 @@ class XmlTableGen:
                     elif k < 0.8:
                         v += rng.choice([b'abc', b'www.example.com/', b'1', b'x y'])
                     nm = bytes.fromhex(a[0])
+                    if rng.random() < 0.1:
+                        nm = rng.choice(lit_pool)
                     if (b' ' + nm + b'="') not in out:
                         out += b' ' + nm + b'="' + v.replace(b'&', b'&amp;').replace(b'"', b'&quot;').replace(b'<', b'&lt;') + b'"'
             kids = b''
@@ -118,7 +130,7 @@ class XmlTableGen:
                 if rng.random() < 0.5:
                     kids += elt(depth + 1, t[1])
                 else:
-                    kids += rng.choice(TEXTS) if rng.random() < 0.5 else rng.choice([b'hello', b'hello', b'repeat me please', b'repeat me please', b' '])
+                    kids += rng.choice(TEXTS) if rng.random() < 0.4 else rng.choice([b'hello', b'hello', b'repeat me please', b'repeat me please', b' ', fam, fam, fam + b' again'])
             if kids or rng.random() < 0.3:
                 return out + b'>' + kids + b'</' + name + b'>'
             return out + b'/>'
